@@ -314,4 +314,60 @@ theorem C12_xonly_partial (simp : BExp → BExp) (hs : SimpSound simp) (K : Kern
   simp only [ha, Bool.not_true, Bool.false_or] at this
   exact xonly_splice_ok simp hs K hK K4 hK4 q n gs secs hdec s hmem r.gates this
 
+/-- **accepted_xonly** (the theorem about the internal compiler that was missing): for every
+section of a decompilation, every simplifier (sound or not), every sequence of ancilla choices: a
+re-synthesis `exprs_to_quantum(simplified expressions, symbols = q0 … q{n-1})` that the repaired
+splice test accepts – in fact already one whose qubit map still sends every `q{i}` to `i` – is of the
+`xonly` shape: every simplified definition is `q = q` or `q = ~q` and the gates are the X gates of the
+self-negations.  (From `stable_xonly`: the first other definition `q{i} = e` is compiled into a qubit
+`≠ i` – another argument, the `FALSE`/`TRUE` qubit, an ancilla – `q{i}` is re-mapped onto it and, the
+names being distinct, never mapped back.) -/
+theorem accepted_xonly (simp : BExp → BExp) (K : Kernel) (hK : K.Sound) (K4 : Kernel4) (q : Quirks)
+    (n : Nat) (gs : List AGate) (secs : List Section) (hdec : decompile q K n gs = .ok secs)
+    (s : Section) (hmem : s ∈ secs) (choices : List Nat) (r : SecResult)
+    (hr : resynth n (simplifySection simp K4 s) choices = .ok r)
+    (ha : accept Quirks.none n s r = true) : xonly n (simplifySection simp K4 s) r.gates = true :=
+  stable_xonly (simplifySection_keysOK hK (decompile_exps hdec s hmem) simp K4) hr (accept_stable ha)
+
+/-- **accepted_section_ok**: with a meaning-preserving simplifier, every re-synthesis the repaired
+splice test accepts has the classical action of the section it replaces -/
+theorem accepted_section_ok (simp : BExp → BExp) (hs : SimpSound simp) (K : Kernel) (hK : K.Sound)
+    (K4 : Kernel4) (hK4 : K4.Sound) (q : Quirks) (n : Nat) (gs : List AGate) (secs : List Section)
+    (hdec : decompile q K n gs = .ok secs) (s : Section) (hmem : s ∈ secs) (choices : List Nat)
+    (r : SecResult) (hr : resynth n (simplifySection simp K4 s) choices = .ok r)
+    (ha : accept Quirks.none n s r = true) : SectionOK n s.gates r.gates :=
+  xonly_splice_ok simp hs K hK K4 hK4 q n gs secs hdec s hmem r.gates
+    (accepted_xonly simp K hK K4 q n gs secs hdec s hmem choices r hr ha)
+
+/-- **C12_full** (the whole property of the repaired model): for every circuit built by
+`QCircuit.append` (distinct wires per gate), every meaning-preserving `simplify_logic`, all sound
+constructor kernels and all ancilla choices, every successful run of `circuit_boolean_optimizer`
+returns a circuit with the same action (`SameUnitary`), no more gates, on the qubits of the input -/
+theorem C12_full (simp : BExp → BExp) (hs : SimpSound simp) (K : Kernel) (hK : K.Sound)
+    (K4 : Kernel4) (hK4 : K4.Sound) (choices : Section → List Nat) (n : Nat) (gs out : List AGate)
+    (hwf : ∀ g ∈ gs, g.wires.Nodup)
+    (h : optimize Quirks.none K K4 simp choices n gs = .ok out) : Holds n gs out := by
+  cases hdec : decompile Quirks.none K n gs with
+  | error e =>
+    unfold optimize optimizeWith at h
+    rw [hdec] at h; cases h
+  | ok secs =>
+    refine C12_xonly_partial simp hs K hK K4 hK4 Quirks.none choices n gs out secs hwf hdec ?_ h
+    unfold xonlyRun
+    rw [List.all_eq_true]
+    intro s hmem
+    cases hr : resynSection n (simplifySection simp K4) choices s with
+    | error e => rfl
+    | ok r =>
+      dsimp only
+      cases ha : accept Quirks.none n s r with
+      | false => rfl
+      | true =>
+        simp only [Bool.not_true, Bool.false_or]
+        exact accepted_xonly simp K hK K4 Quirks.none n gs secs hdec s hmem (choices s) r hr ha
+
+/-- `C12_statement` holds -/
+theorem C12_statement_holds : C12_statement := fun simp hs choices n gs out hwf h =>
+  C12_full simp hs rawKernel rawKernel_sound rawKernel4 rawKernel4_sound choices n gs out hwf h
+
 end QV.C12
